@@ -28,11 +28,11 @@ META = {
                    "decided by z3 path by path and the result is compared with argmax.  The upload/reload/diff decisions are "
                    "checked for every element of the stated finite space.",
     "assumptions": ["annet.deploy.get_deployer stubbed by a driver returning empty configuration/exit command lists",
-                    "file contents drawn from {absent, A, B, multi-line C} (difflib hashes lines: contents stay concrete)",
-                    "default UnifiedFileDiffer; device hw 'PC' with soft 'Cumulus Linux 5.4.0'"],
+                    "file contents drawn from {absent, AAA, empty, leading-blank AAA, trailing-blank AAA, multi-line, BBB} (difflib hashes lines: contents stay concrete)",
+                    "default UnifiedFileDiffer; device hw 'PC' with soft 'Cumulus Linux 5.4.0' (reload commands get the etckeeper suffix) and a plain 'PC' whose third generator has an empty reload command", "generator priorities are class attributes, sets (0,70,300) / (300,70,0) / (70,300,0) / (100,300,200)"],
     "outside": ["JSON fragment generators (C13)", "FrrFileDiffer rulebook-based diff", "more than 3 generators / 2 paths"],
     "bounds": {"quick": "3 generators, 2 paths, unbounded distinct priorities; flow: 3 generators x 2 paths x 3 contents x 3 old contents^2 x 3 reload flags x safe",
-               "thorough": "same with 4 content choices and all is_safe vectors"},
+               "thorough": "same with 5 content choices and all is_safe vectors"},
 }
 
 
